@@ -79,7 +79,9 @@ static uint8_t *g_caller_mem;        // fixed-address bump arena for handles (de
 static size_t g_caller_used;
 static uint8_t *caller_alloc(size_t n) { n = (n + 63) & ~(size_t)63; uint8_t *p = g_caller_mem + g_caller_used; g_caller_used += n + 64; memset(p, 0, n); return p; }
 
+static uint64_t g_budget = 0;        // instrumented accesses left in this simulated run (bounded liveness)
 static void exec_op(const Plan &p, const Op &o, TaskState &ts, TaskObs &ob) {
+    ++g_call_seq;
     int k = p.slots[o.slot]; unsigned bs = kind_bs(k);
     void *obj = (o.flags & F_NULLOBJ) ? nullptr : ts.h[o.slot];
     // every buffer the library sees comes from the caller arena, which is never reused within a
@@ -142,7 +144,8 @@ static void record_access(Task *t, uintptr_t addr, unsigned size, int wr, void *
         uint8_t mask = (uint8_t)(((1u << (hi - lo)) - 1) << (lo & 7));
         size_t idx = (size_t)(mix64(g) & (NCELL - 1));
         Cell *c;
-        for (;;) { c = &g_cells[idx]; if (c->gen != g_gen) { memset(c, 0, sizeof *c); c->gen = g_gen; c->gran = g; break; } if (c->gran == g) break; idx = (idx + 1) & (NCELL - 1); }
+        size_t probes = 0;
+        for (;;) { c = &g_cells[idx]; if (c->gen != g_gen) { memset(c, 0, sizeof *c); c->gen = g_gen; c->gran = g; break; } if (c->gran == g) break; idx = (idx + 1) & (NCELL - 1); if (++probes >= NCELL) return; /* table full: stop recording, the budget will end the run */ }
         for (int u = 0; u < 4; ++u) {
             if (u == t->id) continue;
             uint8_t conflict = wr ? (uint8_t)((c->w[u] | c->r[u]) & mask) : (uint8_t)(c->w[u] & mask);
@@ -157,8 +160,13 @@ static void record_access(Task *t, uintptr_t addr, unsigned size, int wr, void *
     ++g_recorded;
 }
 
+static void out_of_budget() {
+    g_crash.sig = -2; g_crash.addr = 0; g_crash.where = "step budget of the simulated run exhausted: runaway loop or livelock";
+    siglongjmp(g_crash_jmp, 1);
+}
 static void thr_mem(void *addr, unsigned size, int wr, void *pc) {
     Task *t = g_cur;
+    if (g_budget && --g_budget == 0) out_of_budget();
     if (!t) {
         // sequential reference phase: no scheduling, but a write to static storage is hidden global state all the same
         if (wr && (uintptr_t)addr >= (uintptr_t)&__data_start && (uintptr_t)addr < (uintptr_t)&_end && g_findings.size() < 4)
@@ -169,6 +177,17 @@ static void thr_mem(void *addr, unsigned size, int wr, void *pc) {
     uint8_t *a = (uint8_t *)addr;
     if (!(a >= t->stack_lo && a < t->stack_hi)) record_access(t, (uintptr_t)addr, size ? size : 1, wr, pc);
     if (t->quantum && --t->quantum == 0) { swapcontext(&t->ctx, &g_sched_ctx); }
+}
+
+// atomics: a point where the scheduler may switch, never a data race by themselves; a write to static storage is
+// hidden mutable global state whether it is atomic or not
+static void thr_atomic(void *addr, unsigned size, int wr, void *pc) {
+    Task *t = g_cur;
+    if (wr && (uintptr_t)addr >= (uintptr_t)&__data_start && (uintptr_t)addr < (uintptr_t)&_end && g_findings.size() < 4)
+        g_findings.push_back({"global-write", strf("%s: library code wrote %u byte(s) atomically to static storage at image offset 0x%lx (%s): hidden mutable global state", t ? strf("task %d", t->id).c_str() : "a task running alone", size, (unsigned long)((uintptr_t)addr - g_exe_base), pcs(pc).c_str())});
+    if (!t) return;
+    ++t->accesses;
+    if (t->quantum && --t->quantum == 0) swapcontext(&t->ctx, &g_sched_ctx);
 }
 
 static void task_entry() {
@@ -201,6 +220,7 @@ static void final_cleanup(const ThrRun &R, std::vector<TaskState> &sts, TaskStat
 static ThrOutcome simulate(const ThrRun &R) {
     ThrOutcome O;
     g_findings.clear(); g_recorded = 0; g_switches = 0; g_sched_hash = 0; g_segments.clear(); ++g_gen;
+    g_budget = 40000000;     // two orders of magnitude above the largest legitimate run
     size_t T = R.tasks.size(); if (T > 4) T = 4;
     // ---- sequential reference: every task alone
     std::vector<TaskState> ref; TaskState sh;
@@ -208,7 +228,9 @@ static ThrOutcome simulate(const ThrRun &R) {
     volatile int phase = 0;
     if (sigsetjmp(g_crash_jmp, 1) != 0) {
         g_in_lib = 0; g_cur = nullptr; g_heap.end_run();
-        O.findings.push_back({"crash", strf("fault inside the library during the %s phase: signal %d touching %s", phase ? "concurrent" : "sequential reference", g_crash.sig, classify_addr((void *)g_crash.addr).c_str())});
+        if (g_crash.sig == -2 || g_crash.sig == SIGALRM) O.findings.push_back({"no-progress", strf("%s phase: %s", phase ? "concurrent" : "sequential reference", g_crash.where)});
+        else O.findings.push_back({"crash", strf("fault inside the library during the %s phase: signal %d touching %s", phase ? "concurrent" : "sequential reference", g_crash.sig, classify_addr((void *)g_crash.addr).c_str())});
+        for (auto &f : g_findings) O.findings.push_back(f);
         return O;
     }
     g_in_lib = 1;
@@ -369,7 +391,7 @@ int main(int argc, char **argv) {
     g_tstacks = (uint8_t *)mmap((void *)0x200070000000ULL, 4 * (TSTACK + 8192), PROT_READ | PROT_WRITE, MAP_PRIVATE | MAP_ANONYMOUS | MAP_FIXED_NOREPLACE, -1, 0);
     g_cells = (Cell *)calloc(NCELL, sizeof(Cell));
     if (g_caller_mem == MAP_FAILED || g_tstacks == MAP_FAILED || !g_cells) { fprintf(stderr, "thrsim: cannot map fixed regions\n"); return 2; }
-    g_tsan.mem = thr_mem;
+    g_tsan.mem = thr_mem; g_tsan.atomic = thr_atomic;
     if (!replay.empty()) {
         ThrRun R; std::string expect; if (!read_replay(replay, R, expect)) { fprintf(stderr, "cannot read %s\n", replay.c_str()); return 2; }
         ThrOutcome o = simulate(R);
